@@ -9,8 +9,8 @@ EXTENDS Integers, Sequences, FiniteSets
 
 Intervals == {"once", "daily", "weekly", "monthly", "quarterly", "yearly"}
 
-Max(a, b) == IF a >= b THEN a ELSE b
-Min(a, b) == IF a <= b THEN a ELSE b
+Max2(a, b) == IF a >= b THEN a ELSE b
+Min2(a, b) == IF a <= b THEN a ELSE b
 
 \* ---- civil calendar (Hinnant), valid for z >= -719468 -----------------------
 Civil(z0) ==
@@ -72,8 +72,8 @@ IsPartition(ps, s, e, iv, last) ==
     /\ \A i \in 1..Len(ps) :
          /\ ps[i].s <= ps[i].e
          /\ SameUnit(ps[i].s, ps[i].e, iv)                       \* never straddles a boundary
-         /\ ps[i].s = Max(s, UnitStart(ps[i].e, iv))            \* maximal inside the window
-         /\ ps[i].e = Min(e, UnitEnd(ps[i].s, iv))
+         /\ ps[i].s = Max2(s, UnitStart(ps[i].e, iv))            \* maximal inside the window
+         /\ ps[i].e = Min2(e, UnitEnd(ps[i].s, iv))
     /\ \A i \in 1..Len(ps) - 1 :
          /\ ps[i].e + 1 = ps[i+1].s                              \* consecutive, no gap/overlap
          /\ ~SameUnit(ps[i].e, ps[i+1].s, iv)
@@ -101,11 +101,11 @@ AlignCode(ps, d) ==
 RECURSIVE Walk(_, _, _, _, _, _)
 Walk(end, s, iv, last, counter, acc) ==
   IF end < s \/ (last > 0 /\ counter >= last) THEN acc
-  ELSE LET st == Max(s, UnitStart(end, iv))
+  ELSE LET st == Max2(s, UnitStart(end, iv))
        IN Walk(st - 1, s, iv, last, counter + 1, << [s |-> st, e |-> end] >> \o acc)
 
 Partition(s, e, iv, last) ==
   IF iv = "once" THEN << [s |-> s, e |-> e] >> ELSE Walk(e, s, iv, last, 0, << >>)
 
-Contains(s, e, d) == s <= d /\ d <= e
+SpanContains(s, e, d) == s <= d /\ d <= e
 =============================================================================
